@@ -65,6 +65,7 @@ func RunViews(id, tier string, seed int64, prog *core.Program, verif string, qui
 	}
 	b := run(true)
 	fb := failing(b)
+	dissolved := prog.DissolvedNames()
 	okB := map[string]bool{}   // rule|key decided OK on the inlined view
 	seenB := map[string]bool{} // rule|key present on the inlined view
 	for _, o := range b.Obligations() {
@@ -80,9 +81,21 @@ func RunViews(id, tier string, seed int64, prog *core.Program, verif string, qui
 			continue
 		}
 		k := o.Rule + "|" + o.Key
-		// the same instance is decided on the inlined view, or the instance does not
-		// arise there and the whole rule is clean there
-		if okB[k] || (!seenB[k] && !fb[o.Rule]) {
+		// the same instance is decided on the inlined view; or it does not arise there, the
+		// whole rule is clean there, and the instance is either a failure to find an
+		// anchor or belongs to a helper that is dissolved into its callers on that view
+		absentOK := false
+		if !seenB[k] && !fb[o.Rule] {
+			if strings.HasPrefix(o.Key, "UNRESOLVED:") {
+				absentOK = true
+			}
+			for _, dn := range dissolved {
+				if o.Key == dn || strings.HasPrefix(o.Key, dn+"#") {
+					absentOK = true
+				}
+			}
+		}
+		if okB[k] || absentOK {
 			o.OK = true
 			o.Msg = "discharged on the inlined view (as written: " + o.Msg + ")"
 			if !dis[o.Rule] {
